@@ -353,3 +353,24 @@ Definition writers_in (st : state) : nat := cnt is_inW (tasks st).
 Definition live (p : pc) : bool := match p with Fin | Dead => false | _ => true end.
 Definition unfinished (st : state) (t : nat) : Prop :=
   exists tk, nth_error (tasks st) t = Some tk /\ live (tpc tk) = true.
+
+(* a budget that every step of a task consumes *)
+Fixpoint pm (p : list acq) : nat :=
+  match p with [] => 1 | a :: r => ay a + 4 + pm r end.
+Definition tm (tk : task) : nat :=
+  match tpc tk, prog tk with
+  | Start, p => pm p
+  | WaitRL, a :: r => ay a + 3 + pm r
+  | WaitWLr, a :: r => ay a + 2 + pm r
+  | WaitWLw, a :: r => ay a + 2 + pm r
+  | InR k, _ :: r => k + 1 + pm r
+  | InW k, _ :: r => k + 1 + pm r
+  | _, _ => 0
+  end.
+Definition measure (st : state) : nat := list_sum (map tm (tasks st)).
+Fixpoint run_steps (sched : list label) : nat :=
+  match sched with
+  | [] => 0
+  | Run _ :: r => S (run_steps r)
+  | Cancel _ :: r => run_steps r
+  end.
